@@ -379,6 +379,24 @@ def check_tables(model, rep):
     rep.require('C09.worm-table', 6)
 
 
+def check_pure(model, rep):
+    from sa.extract import purity_scan
+    for cls in GEARS + ('WormGear',):
+        for meth, allowed in (('compute_tangential_force', ('tangential_force',)), ('compute_bending_stress', ('bending_stress',)),
+                              ('compute_contact_stress', ('contact_stress',))):
+            m = model.find_member(cls, meth)
+            if m is None or m.cls != cls and False:
+                continue
+            bad = purity_scan(model, cls, m.node, allowed)
+            rep.decide(not bad, 'C09.pure', f'{cls}.{meth}', f'the formula is not a pure function of the gear data: it {bad[0][1] if bad else ""}',
+                       loc=f'{m.module}:{bad[0][0] if bad else m.node.lineno}')
+        mi = model.find_member(cls, '__init__')
+        bad = [b for b in purity_scan(model, cls, mi.node, ()) if 'self.' not in b[1] or 'shared container' in b[1] and 'time_variables' not in b[1]]
+        bad = [b for b in bad if 'stores the attribute' not in b[1] and 'time_variables' not in b[1]]
+        rep.decide(not bad, 'C09.pure', f'{cls}.__init__', f'the constructor {bad[0][1] if bad else ""}: values derived from this gear\'s data '
+                   f'(e.g. its Lewis factor) can come from another gear', loc=f'{mi.module}:{bad[0][0] if bad else mi.node.lineno}')
+
+
 def check(model, rep):
     rep.explain('C09: force / bending / contact formulas of SpurGear, HelicalGear, WormWheel (and the role mapping of '
                 'WormGear) extracted by gated value numbering and compared, per mating role, with specification terms; '
@@ -389,6 +407,7 @@ def check(model, rep):
     sxm.POSITIVE_ATOMS.clear()
     sx = SX(model)
     sx.opaque_calls |= OPAQUE
+    check_pure(model, rep)
     check_force(model, rep, sx)
     check_bending(model, rep, sx)
     check_contact(model, rep, sx)
